@@ -47,11 +47,14 @@ def run(tier, seed):
     for i in range(n):
         s = rng.randrange(1 << 30)
         hist.append((f"teardown-{s}", histories.history(s, rng.choice([15, 25, 35]), "teardown")))
-    texts = [(hid, ec.history_text(hid, lines, dump=1)) for hid, lines in hist]
-    mo = ec.run_all(model, texts)
-    io = ec.run_all(impl["debug"], texts)
     mismatches, violations, nontrivial = [], [], set()
-    for hid, lines in hist:
+    CHUNK = 1500      # dumps after every op: never hold more than one chunk of outputs
+    for chunk in [hist[i:i + CHUNK] for i in range(0, len(hist), CHUNK)]:
+      texts = [(hid, ec.history_text(hid, lines, dump=1)) for hid, lines in chunk]
+      mo = ec.run_all(model, texts)
+      io = ec.run_all(impl["debug"], texts)
+      del texts
+      for hid, lines in chunk:
         ml, il = ec.normalise(mo.get(hid, [])), ec.normalise(io.get(hid, []))
         d = ec.first_diff(ml, il)
         if d:
